@@ -20,7 +20,8 @@ pub fn prop() -> Prop {
         rule: "complete enumeration of the product {7 receiver states} x {source: unknown address, the peer's address} x datagram domain: every byte string of \
                length 0..=2; lengths 3..=80 x 15 structured first bytes x 4 bodies; 0xff + valid key-hash prefix + every tag x 13 extreme lengths, also at every \
                part position of genuine ping/pong/peng; every truncation and every length-field corruption of genuine handshake, sealed (data, node-info, \
-               rotation) datagrams; sizes 1400/9000/65435. Each datagram goes through the real socket event under panic capture. non-trivial = datagram reached \
+               rotation) datagrams; sizes 1400/9000/65435; plus all sequences of <= 2 (3) recorded genuine handshake datagrams per state and source (crash freedom only). Each datagram \
+               goes through the real socket event under panic capture and a deadline. non-trivial = datagram reached \
                a handshake or crypto object (source is pending/established, or carries the handshake marker)",
         run,
         replay,
